@@ -51,6 +51,22 @@ class GotranCCodePrinter(C99CodePrinter):
     def _print_Float(self, flt):
         return self._print(str(float(flt)))
 
+    def _print_Mul(self, expr):
+        # A quotient with an integer valued denominator (e.g. 1/4) is a real
+        # number in the model, so make sure it is not an integer division in C
+        def as_real(arg):
+            if arg.is_Mul:
+                return sympy.Mul(*[as_real(a) for a in arg.args], evaluate=False)
+            if arg.is_Pow and arg.exp.is_negative and arg.base.is_integer:
+                base = arg.base.xreplace({i: sympy.Float(i) for i in arg.base.atoms(sympy.Integer)})
+                return sympy.Pow(base, arg.exp, evaluate=False)
+            return arg
+
+        args = [as_real(arg) for arg in expr.args]
+        if args != list(expr.args):
+            expr = sympy.Mul(*args, evaluate=False)
+        return super()._print_Mul(expr)
+
     def _print_Abs(self, expr):
         # All variables are doubles, so never use the integer version 'abs'
         return f"fabs({self._print(expr.args[0])})"
